@@ -451,6 +451,7 @@ def orc_fixed_t(case):
     P = C * (C - 1) // 2
     models, mk_data, vecs, data = _fixed_inputs(case)
     degenerate = case.get('degenerate', 1e-10)
+    pr = case.get('prtol', 1e-7)     # looser only where the difference variance is a small fraction of the variances
     model_arg = models[0] if case.get('mcontainer') == 'single' else (tuple(models) if case.get('mcontainer') == 'tuple' else models)
     if case.get('sequence'):
         # another data set of the same shape first: the result for `data` must not depend on what was evaluated before
@@ -524,21 +525,21 @@ def orc_fixed_t(case):
         if abs(p_sc - p_lit) > 1e-9:
             return f'spec self-check failed: ttest_rel {p_sc} vs literal {p_lit}'
         want_pp[i, j] = want_pp[j, i] = p_sc
-    if not _same(pp, want_pp, 1e-7, 1e-9):
+    if not _same(pp, want_pp, pr, 1e-9):
         return f'test_pairwise {_fmt(pp)} != paired t-tests (scipy.stats.ttest_rel) {_fmt(want_pp)}'
     want_pz = np.array([sst.ttest_1samp(e[k], 0.0, alternative='greater').pvalue for k in range(M)])
     lit_pz = np.array([sst.t.sf(mean[k] / math.sqrt(s2[k] / n), n - 1) for k in range(M)])
-    if not _same(want_pz, lit_pz, 1e-7, 1e-9):
+    if not _same(want_pz, lit_pz, pr, 1e-9):
         return 'spec self-check failed: ttest_1samp(greater) vs literal'
-    if not _same(pz, want_pz, 1e-7, 1e-9):
+    if not _same(pz, want_pz, pr, 1e-9):
         return f'test_zero {_fmt(pz)} != one-sided one-sample t-tests against 0 {_fmt(want_pz)}'
     want_pn = np.array([sst.ttest_1samp(e[k], ncl).pvalue for k in range(M)])
-    if not _same(pn, want_pn, 1e-7, 1e-9):
+    if not _same(pn, want_pn, pr, 1e-9):
         return (f'test_noise {_fmt(pn)} != two-sided one-sample t-tests against the lower noise ceiling {ncl!r}: '
                 f'{_fmt(want_pn)}')
     a = res.test_all()
     for nm, got, want in (('pairwise', a[0], want_pp), ('zero', a[1], want_pz), ('noise', a[2], want_pn)):
-        if not _same(got, want, 1e-7, 1e-9):
+        if not _same(got, want, pr, 1e-9):
             return f'test_all {nm} {_fmt(got)} != classical {_fmt(want)}'
     return None
 
@@ -1360,7 +1361,7 @@ def _sweeps(thorough):
             for method in ('cosine', 'corr'):
                 k += 1
                 add('C06/fixed-t', orc_fixed_t, dict(seed=9000 + k, n_rdm=(4, 7)[k % 2], n_cond=5, M=2 + k % 2, method=method, noise=0.5,
-                                                     near=near, degenerate=1e-30, vatol=1e-12 * near ** 2, vrtol=1e-6),
+                                                     near=near, degenerate=1e-30, vatol=1e-12 * near ** 2, vrtol=1e-6, prtol=1e-9 / near ** 2),
                     'close-competitor-models', 'eval_fixed')
         for noise in (1e-3, 1e-5):
             for method in ('cosine', 'corr'):
